@@ -53,7 +53,7 @@ ALL = {
 
 BUILT = ["C01", "C02", "C03", "C04", "C05", "C06", "C07", "C08", "C09", "C10", "C11", "C12", "C13", "C14", "C15", "C16", "C17", "C18", "C19", "C20"]
 
-CHECKS = {pid: ("4/" + pid, ALL[pid][0] + "; two build profiles", ALL[pid][1] + " Held on the K executions listed in the evidence, not a proof.", COMMON_NOTE) for pid in BUILT}
+CHECKS = {pid: ("4/" + pid, ALL[pid][0] + "; two build profiles; shards are long single-process call histories, every second one with a companion thread running the same cases in reverse order concurrently, after a primer of very large calls (hidden process state / thread interference observable)", ALL[pid][1] + " Held on the K executions listed in the evidence, not a proof.", COMMON_NOTE) for pid in BUILT}
 
 NOT_YET = "monitor not built yet in this round (design in DESIGN.md section 4); not claimed until its check exists"
 
